@@ -162,12 +162,16 @@ LinesOK ==
 Prologs == {"none", "xmldecl", "comment", "pi", "doctype"}
 KidKinds == {"shape", "text-shape", "nested-ns-svg", "nested-plain-svg", "specs", "g", "comment", "defs", "style"}
 KidLists == UNION {[1..k -> KidKinds] : k \in 0..2}
+\* what else the author wrote on the root: nothing, a prefixed namespace declaration
+\* only, a version, id and class, attributes in a namespace of their own
+RootAttrs == {"none", "xlink", "version", "id-class", "custom-ns", "xml-space"}
 RootCases ==
-    {[fam |-> "root", prolog |-> p, kids |-> ks, ns |-> n,
+    UNION {
+    {[fam |-> "root", prolog |-> p, kids |-> ks, ns |-> n, rootattrs |-> ra,
       \* a namespaced root is passed through untouched; otherwise the root is
       \* synthesised: svg + xmlns + version, single root
       passthrough |-> n, rootok |-> TRUE] :
-        p \in Prologs, ks \in KidLists, n \in BOOLEAN}
+        p \in Prologs, n \in BOOLEAN, ra \in (IF Len(ks) <= 1 THEN RootAttrs ELSE {"none", "xlink"})} : ks \in KidLists}
 
 Cases == CASE Family = "wf" -> WfCases [] Family = "lines" -> LineCases \cup LineCases2 [] Family = "root" -> RootCases [] OTHER -> {}
 Init == c \in Cases
